@@ -1505,6 +1505,10 @@ type KeyParams struct {
 	// elements are themselves the inner collections (arrays / typed maps of
 	// different sizes, shape OuterSel); Outer/Inner are ignored.
 	Ragged string `json:",omitempty"`
+	// Mix ("arr" or "map", with Ragged = "arr"): the outer collection is a
+	// LITERAL array / typed map whose elements are references to run-time
+	// arrays of different lengths (outputs of two producer calls).
+	Mix string `json:",omitempty"`
 	// Twin: every stage call has a sibling calling the same stage with the
 	// same arguments under an id that extends its own (X and X_2): one
 	// name is a prefix of the other.
@@ -1535,6 +1539,9 @@ func (d KeyParams) String() string {
 		e := d
 		e.Twin = false
 		return strings.TrimSuffix(e.String(), "}") + " twin}"
+	}
+	if d.Ragged != "" && d.Mix != "" {
+		return fmt.Sprintf("keys{ragged=%s mix=%s/%d chunks=%d}", d.Ragged, d.Mix, d.OuterSel, d.Chunks)
 	}
 	if d.Ragged != "" {
 		return fmt.Sprintf("keys{ragged=%s/%v/%d chunks=%d}", d.Ragged, d.OuterDyn, d.OuterSel, d.Chunks)
@@ -1577,7 +1584,36 @@ func raggedFlow(d KeyParams) *Program {
 	}
 	p.Pipelines = append(p.Pipelines, inner)
 	var srcE *Exp
-	if d.OuterDyn {
+	outerColl := ArrayOf
+	if d.Mix != "" {
+		// a literal collection of references to run-time arrays whose
+		// lengths are the numbers of the ragged shape
+		if d.Ragged != "arr" || d.OuterDyn || RaggedHasNull(d.OuterSel) {
+			return nil
+		}
+		p.Stages = append(p.Stages, &Stage{Name: "KEYS", Fn: "KEYS", Ins: []Param{{T: IntT, Name: "sel"}},
+			Outs: []Param{{T: TMapOf(IntT), Name: "m"}, {T: ArrayOf(IntT), Name: "a"}}})
+		var keys []string
+		var refs []*Exp
+		for i, e := range src.A {
+			if len(e.A) == 0 {
+				return nil // KEYS has no selector for the empty array
+			}
+			id := fmt.Sprintf("K%d", i)
+			top.Calls = append(top.Calls, &Call{Callee: "KEYS", Alias: id, Binds: []Bind{{"sel", Lit(Int(int64(-len(e.A))))}}})
+			keys = append(keys, "k"+string(rune('a'+i)))
+			refs = append(refs, Ref(id, "a"))
+		}
+		if len(refs) == 0 {
+			return nil
+		}
+		if d.Mix == "map" {
+			srcE = MapE(keys, refs)
+			outerColl = TMapOf
+		} else {
+			srcE = ArrE(refs...)
+		}
+	} else if d.OuterDyn {
 		top.Calls = append(top.Calls, &Call{Callee: "RAGGED", Binds: []Bind{{"sel", Lit(Int(int64(d.OuterSel)))}}})
 		srcE = Ref("RAGGED", outName)
 	} else {
@@ -1585,7 +1621,7 @@ func raggedFlow(d KeyParams) *Program {
 	}
 	top.Calls = append(top.Calls, &Call{Callee: "INNER", Map: true, Binds: []Bind{{"x", Self("n")}, {"c", SplitE(srcE)}}})
 	for _, o := range inner.Outs {
-		top.Outs = append(top.Outs, Param{T: ArrayOf(o.T), Name: "r_" + o.Name})
+		top.Outs = append(top.Outs, Param{T: outerColl(o.T), Name: "r_" + o.Name})
 		top.Ret = append(top.Ret, Bind{"r_" + o.Name, Ref("INNER", o.Name)})
 	}
 	p.Pipelines = append(p.Pipelines, top)
@@ -1597,6 +1633,13 @@ func raggedFlow(d KeyParams) *Program {
 // RaggedFamily enumerates the ragged nests.
 func RaggedFamily(thorough bool) []KeyParams {
 	var out []KeyParams
+	for _, mix := range []string{"arr", "map"} {
+		for sel := 0; sel < RaggedCount(); sel++ {
+			for _, ch := range []int{0, 2} {
+				out = append(out, KeyParams{Ragged: "arr", Mix: mix, OuterSel: sel, Chunks: ch})
+			}
+		}
+	}
 	for _, kind := range []string{"arr", "map"} {
 		for sel := 0; sel < RaggedCount(); sel++ {
 			for _, dyn := range []bool{false, true} {
